@@ -17,7 +17,7 @@ from harness.vloop import Session
 
 logging.getLogger('ndn').setLevel(logging.CRITICAL)
 
-INVS = ['TypeOK', 'OneCallbackPerDatagram', 'RunningMeansOpen', 'TransportOpenMeansRunning', 'ReturnedMeansClosed',
+INVS = ['TypeOK', 'OneCallbackPerDatagram', 'RunningMeansOpen', 'NoProtocolError', 'TransportOpenMeansRunning', 'ReturnedMeansClosed',
         'WaitingMeansOpen', 'NoWireWithoutTransport']
 PROPS = ['ShutdownIdempotent', 'ClosedTransportSendsNothing']
 VIEW = ('running', 'cb', 'wire', 'dropped', 'runst', 'last', 'opened')
@@ -239,20 +239,14 @@ def expected(st, kind):
 
 
 def differs(st, kind, exp, got):
-    """fields in which the face does not conform to model state st.  The named deviations widen: with
-    DevRunningAfterFailedOpen repaired the face says running = False while no transport is open, with DevErrorTwice
-    repaired the second error_received is swallowed."""
-    d = {k for k in exp if exp[k] != got.get(k)}
-    if kind == 'udp' and st['running'] and not st['topen'] and got.get('running') is False:
-        d.discard('running')
-    if exp['last'] == 'InvalidStateError' and got.get('last') == 'ok':
-        d.discard('last')
-    return sorted(d)
+    """fields in which the face does not conform to model state st (strict: the configurations have Dev = {}, the
+    repaired behaviour of commit c0254c0 is the only one accepted)"""
+    return sorted(k for k in exp if exp[k] != got.get(k))
 
 
 def cfg(name, kind, quick, invs=INVS, props=PROPS, witnesses=True):
     p = os.path.join(tlc.BUILD, name + '.cfg')
-    consts = {'Kind': '"%s"' % kind}
+    consts = {'Kind': '"%s"' % kind, 'Dev': '{}'}
     consts.update(BOUNDS[bool(quick)])
     tlc.write_cfg(p, constants=consts, invariants=invs, properties=props,
                   constraints=['MarkW'] if witnesses else [], postcondition='PostW' if witnesses else None)
@@ -297,6 +291,8 @@ def check(ctx):
         want = {'OpenOk', 'Send', 'Shutdown', 'Run'} | ({'OpenFail', 'Datagram', 'ErrorReceived'} if kind == 'udp' else {'Input'})
         if want - taken:
             raise tlc.MachineryError('vacuous: FaceLife (%s) actions never taken: %s' % (kind, sorted(want - taken)))
+        if kind == 'udp' and not any(a == 'ErrorReceived' and g.state[s]['closeDone'] for s, es in g.edges.items() for a, _, _ in es):
+            raise tlc.MachineryError('vacuous: FaceLife has no error_received after the close future was resolved')
         paths = graph.edge_cover_paths(g, max_len=40, rng=ctx.rng)
         paths += graph.random_paths(g, ctx.pick(100, 1500), 25, ctx.rng)
         steps = 0
